@@ -545,6 +545,9 @@ def helper_family(prop, tier, seed, families, rule):
     if not b.ok:
         raise Infra("helper driver does not build: %s %s" % (b.err, b.asn1c_out[-500:]))
     for fam in families:
+        if fam == "oidapi":
+            oidapi_family(res, b, prop, tier, known)
+            continue
         consts = ['Family = "%s"' % fam, "Dense = %s" % ("TRUE" if tier == "thorough" else "FALSE")]
         _, calls, st = lib.generate("MC_Helpers", consts, ["RefSound", "Export"])
         res.states += st["distinct"]
@@ -585,14 +588,104 @@ def helper_family(prop, tier, seed, families, rule):
     return finish(res, tier, seed, "model_checking", t0, rule, ASSUME_HELPERS)
 
 
+def oidapi_line(c):
+    def tok(op):
+        if op["op"] == "set":
+            return "set:" + (".".join(str(nat_of_mag(a)) for a in op["arcs"]) or "-")
+        if op["op"] == "load":
+            return "load:" + (bytes(op["o"]).hex() or "-")
+        return "get:%d" % op["slots"]
+    return "oidapi %d %s %s" % (c["id"], c["kind"], " ".join(tok(o) for o in c["script"]))
+
+
+def run_oidapi_driver(b, scns):
+    """scripts of calls on one object; a crash ends only the script it happened in"""
+    import subprocess, tempfile, shutil
+    work = tempfile.mkdtemp(prefix="oid-", dir=lib.SCRATCH)
+    events, todo = [], list(scns)
+    try:
+        while todo:
+            sp, ep = os.path.join(work, "s"), os.path.join(work, "e")
+            open(sp, "w").write("\n".join(oidapi_line(c) for c in todo) + "\n")
+            r = subprocess.run([b.driver, sp, ep], stdout=subprocess.PIPE, stderr=subprocess.STDOUT, text=True, errors="replace", timeout=900,
+                               env=dict(os.environ, ASAN_OPTIONS="detect_leaks=0:abort_on_error=1", UBSAN_OPTIONS="halt_on_error=1:abort_on_error=1"))
+            got = []
+            for line in open(ep, errors="replace"):
+                try:
+                    got.append(json.loads(line))
+                except ValueError:
+                    pass
+            if r.returncode == 0:
+                events += got
+                break
+            # the script that was running when the process died is the last one with a Begin line
+            begun = [e["id"] for e in got if e["a"] == "Begin"]
+            cur = begun[-1] if begun else todo[0]["id"]
+            if not got or got[-1]["a"] not in ("Crash", "Timeout") or got[-1]["id"] != cur:
+                done = len([e for e in got if e["id"] == cur and e["a"] == "Call"])
+                got.append({"id": cur, "i": done + 1, "a": "Crash", "sig": r.returncode, "detail": r.stdout[-600:]})
+            elif not got[-1].get("i"):
+                got[-1]["i"] = len([e for e in got if e["id"] == cur and e["a"] == "Call"]) + 1
+            events += got
+            ids = [c["id"] for c in todo]
+            todo = todo[ids.index(cur) + 1:]
+    finally:
+        shutil.rmtree(work, ignore_errors=True)
+    out = []
+    for e in events:
+        if e["a"] in ("Begin", "End"):
+            continue
+        e = dict(e)
+        if "octets" in e:
+            e["octets"] = list(bytes.fromhex(e["octets"]))
+        if "back" in e:
+            e["back"] = [mag_of_nat(int(a)) for a in e["back"]]
+        out.append(e)
+    return out
+
+
+def oidapi_family(res, b, prop, tier, known):
+    """OidApi.tla: the arc API as a state machine over one object (scripts of Set / Load / Get)"""
+    consts = ["Depth = %d" % (3 if tier == "thorough" else 2), "Dense = %s" % ("TRUE" if tier == "thorough" else "FALSE")]
+    _, scns, st = lib.generate("MC_OidApi", consts, ["SetGetInverse", "CanonicalContents", "Export"], names=False)
+    res.states += st["distinct"]
+    res.transitions += st["states"]
+    evs = run_oidapi_driver(b, scns)
+    mism, tot = lib.judge("MC_OidApi", None, scns, evs, constants=consts, shards=8 if len(scns) > 3000 else 2)
+    mism = expand(mism)
+    res.states += tot["distinct"]
+    res.transitions += tot["states"]
+    res.sessions += len(scns)
+    res.events += tot["events"]
+    byid = {c["id"]: c for c in scns}
+    for c in scns:
+        res.distinct.add(json.dumps({k: v for k, v in c.items() if k != "id"}, sort_keys=True))
+    beyond = res.notes.setdefault("beyond_property_deviations", {})
+    for m in mism:
+        c = byid[m["id"]]
+        op = c["script"][m["i"] - 1] if 0 < m["i"] <= len(c["script"]) else {"op": "?"}
+        if m["reason"].startswith("x:"):
+            # a clause of the header's contract that the text of the property does not state: recorded, not an alarm
+            key = "%s %s %s" % (c["kind"], op["op"], m["reason"][2:])
+            ent = beyond.setdefault(key, {"count": 0, "example": oidapi_line(c) + " @step %d" % m["i"]})
+            ent["count"] += 1
+            continue
+        sig = {"op": "oidapi-" + op["op"], "kind": c["kind"], "reason": m["reason"], "family": "oidapi"}
+        res.violations.append((sig, {"property": prop, "signature": sig, "helper": True, "family": "oidapi", "scenario": c,
+                                     "events": [e for e in evs if e["id"] == m["id"]], "constants": consts}))
+    for key, ent in sorted(beyond.items()):
+        print("NOTE: beyond the text of %s (header contract, see DESIGN.md 14.9): %s (%d calls), e.g. %s" % (prop, key, ent["count"], ent["example"]))
+    log("%s family oidapi: %d scripts, %d events, %d violations so far" % (prop, len(scns), tot["events"], len(res.violations)))
+
+
 def check_C16(tier, seed):
     return helper_family("C16", tier, seed, ["int", "real", "num"],
                          "calls enumerated by TLC from spec/MC_Helpers.tla: every boundary integer of each C type through asn_<ty>2INTEGER and back; INTEGER contents (all 1-octet strings, 2-octet boundary set / all in thorough, sign-padded forms up to 10 octets of every edge value) through asn_INTEGER2<ty>; doubles for a set of (thorough: all 2048) biased exponents x 7 mantissa patterns x 2 signs plus specials and subnormals through asn_double2REAL and back; numerals around every overflow boundary, with leading zeros, through the four strto*_lim parsers")
 
 
 def check_C17(tier, seed):
-    return helper_family("C17", tier, seed, ["oid", "time"],
-                         "arc vectors with every valid first pair x boundary arcs up to 2^32-1: set_arcs (octets = X.690 8.19), get_arcs with enough and with too few slots, parse of the dotted text; time_t at calendar edges (epoch, leap days, century rules, 2038, 2106, years 1 and 9999) x seconds of day x fractional digits x 8 POSIX TZ settings (half-hour, 45-minute, DST, +14h): forced-GMT GeneralizedTime / UTCTime text and back")
+    return helper_family("C17", tier, seed, ["oid", "oidapi", "time"],
+                         "scripts of Set / Load / Get calls on ONE OBJECT IDENTIFIER or RELATIVE-OID object (spec/OidApi.tla: every script of 2, thorough 3, operations over valid and invalid vectors, loaded contents and slot counts; a successful Set replaces whatever the object held, a failed one changes nothing); arc vectors with every valid first pair x boundary arcs up to 2^32-1: set_arcs (octets = X.690 8.19), get_arcs with enough and with too few slots, parse of the dotted text; time_t at calendar edges (epoch, leap days, century rules, 2038, 2106, years 1 and 9999) x seconds of day x fractional digits x 8 POSIX TZ settings (half-hour, 45-minute, DST, +14h): forced-GMT GeneralizedTime / UTCTime text and back")
 
 
 # ---- compiler: legality (C11) ----------------------------------------------------------------
